@@ -282,8 +282,12 @@ class C13(Check):
             out.append(self.gen_case(level=0 if i % 5 == 0 else 1))
         for i in range(n // 6):
             out.append(self.gen_case(malformed=True))
+        n_cli = 6 if self.tier == "quick" else 60
         for i in range(n // 5):
-            out.append(self.gen_attr_case())
+            c = self.gen_attr_case()
+            if i < n_cli:
+                c["cli"] = 1          # also observed per line through the `codebasin.coverage compute` CLI
+            out.append(c)
         self.stats["dist"] = self.measure(out)
         paths = self.path_cases()
         self.stats["dist"]["path_function_cases"] = len(paths)
@@ -431,8 +435,31 @@ class C13(Check):
             if e["pass_name"] != "default":
                 ents[-1].append(e["pass_name"])
         if case.get("attr"):
-            return ["Ok", ents, warns, self.attribution(case, base, res)]
+            out = ["Ok", ents, warns, self.attribution(case, base, res)]
+            if case.get("cli"):
+                out.append(self.cli_lines(base, dbpath))
+            return out
         return ["Ok", ents, warns]
+
+    def cli_lines(self, base, dbpath):
+        """Per-line attribution through the coverage CLI (a subprocess started outside the root)."""
+        import sys
+        d = common.scratch() / "c13" / "cli"
+        d.mkdir(parents=True, exist_ok=True)
+        cov = d / "cov.json"
+        cov.unlink(missing_ok=True)
+        env = dict(os.environ, PYTHONPATH=str(common.REPO), PYTHONHASHSEED="0")
+        p = subprocess.run([sys.executable, "-W", "ignore", "-m", "codebasin.coverage", "compute",
+                            "-S", str(base / "root"), "-o", str(cov), str(dbpath)],
+                           cwd=d, env=env, capture_output=True, text=True, timeout=120)
+        if p.returncode != 0 or not cov.exists():
+            return ["Err", p.returncode]
+        self.stats["cli_runs"] = self.stats.get("cli_runs", 0) + 1
+        out = []
+        for rec in json.loads(cov.read_text()):
+            if rec["used_lines"]:
+                out.append([[BTAG, "root"] + rec["file"].split("/"), sorted(rec["used_lines"])])
+        return sorted(out)
 
     def attribution(self, case, base, db):
         """Files with at least one code node attributed to the platform, through finder.find."""
@@ -513,7 +540,13 @@ class C13(Check):
                     if i[:1] == [BTAG] and objs.get(tuple(i[1:]) + ("probe.h",)) is False:
                         att.add(tuple(i) + ("probe.h",))
                         break
-            return ["Ok", ents, warns, sorted(list(a) for a in att)]
+            out = ["Ok", ents, warns, sorted(list(a) for a in att)]
+            if case.get("cli"):
+                # the coverage CLI reports the files of the code base (inside the root): an entry file has its
+                # marker line and its #include line used, an included probe header its single line
+                named = {tuple(f) for f, _ in ents}
+                out.append(sorted([list(a), [1, 2] if a in named else [1]] for a in att if a[:2] == (BTAG, "root")))
+            return out
         return ["Ok", ents, warns]
 
     @staticmethod
@@ -656,7 +689,7 @@ class C13(Check):
 
     def extra_coverage(self):
         return {"input_distribution": self.stats.get("dist", {}), "gcc_oracle": self.stats.get("oracle", {}),
-                "domain_breakdown": self.stats.get("domain", {})}
+                "domain_breakdown": self.stats.get("domain", {}), "coverage_cli_runs": self.stats.get("cli_runs", 0)}
 
     # -------------------------------------------------------------- S versus gcc
     def self_tests(self):
